@@ -34,6 +34,7 @@ class Function:
         self._addr_taken = None
         self._canon_cache = {}
         self._thru_calls = False
+        self.new_aliases = {}
         self._apply_recorded_names()
 
     # ---- names ---------------------------------------------------------
@@ -78,6 +79,37 @@ class Function:
                 for p in self.params:
                     if p[2] in ren:
                         p[0] = ren[p[2]]
+        # locals that did not exist when the rules were confirmed and merely name a path of the
+        # program state (`acmod_t *acmod = d->acmod;`): presented as that path everywhere
+        self.new_aliases = {}
+        if ref is not None:
+            known = set(r[0] for r in ref)
+            stored = {}
+            for nd in self.nodes:
+                if nd["k"] in ("Assign", "CompoundAssign") or (nd["k"] == "Un" and nd.get("op") in ("post++", "pre++", "post--", "pre--", "&")):
+                    t = nd["ch"][0]
+                    while self.nodes[t]["k"] in ("Paren", "ICast", "Cast"):
+                        t = self.nodes[t]["ch"][0]
+                    if self.nodes[t]["k"] == "DeclRef":
+                        stored[self.nodes[t].get("decl")] = True
+            for nd in self.nodes:
+                if nd["k"] == "Var" and "inl" not in nd and nd["name"] not in known and nd["ch"] and not nd.get("static") and nd["decl"] not in stored:
+                    v = nd["ch"][0]
+                    j = v
+                    okp = True
+                    st = [j]
+                    while st:
+                        x = st.pop()
+                        kx = self.nodes[x]["k"]
+                        if kx in ("Paren", "ICast", "Cast", "Member"):
+                            st.extend(self.nodes[x]["ch"])
+                        elif kx == "DeclRef" and self.nodes[x].get("ref") == "param":
+                            pass
+                        else:
+                            okp = False
+                            break
+                    if okp and any(self.nodes[x]["k"] == "Member" for x in self._subtree(v)):
+                        self.new_aliases[nd["decl"]] = v
         fr = _field_renames(self.prog)
         if fr:
             for nd in self.nodes:
@@ -85,6 +117,13 @@ class Function:
                     m = fr.get(nd.get("rec"))
                     if m and nd["field"] in m:
                         nd["field"] = m[nd["field"]]
+
+    def _subtree(self, i):
+        st = [i]
+        while st:
+            x = st.pop()
+            yield x
+            st.extend(self.nodes[x]["ch"])
 
     # ---- tree navigation ---------------------------------------------
     def n(self, i):
@@ -311,6 +350,8 @@ class Function:
             if not self._mentions_enum_only(i):
                 return str(nd["cv"])
         if k == "DeclRef":
+            if nd.get("decl") in self.new_aliases and nd["decl"] not in stack and depth > 0:
+                return self._canon(self.new_aliases[nd["decl"]], subst, fold, casts, depth - 1, inl, stack + (nd["decl"],))
             if nd["ref"] in ("local", "param") and subst and depth > 0 and nd["decl"] not in self.addr_taken and nd["decl"] not in stack:
                 v = self.rd.unique_def_value(i)
                 if v is not None and (self._thru_calls or not self._is_alloc(v)):
